@@ -164,6 +164,14 @@ def build(run):
                            claim="set_mathml returns Err => the installed expression is the one from before the call; Ok => the new one")], timeout=300)
 
 
+    # ---- D-C08-h: clean_mmultiscripts never panics (shared with C02) -------------------------------------------------------------------
+    if run.tier == "thorough":
+        from checks import C02
+        crate6, lemma6 = C02.mm_lemma(run)
+        crate6 = kani_run.Crate("c08mm", crate6._args["body"])
+        run.kani(crate6, [dict(lemma6, id="D-C08-h.clean_mmultiscripts_total")], timeout=1200)
+
+
 def _span(source, a, b, name):
     return slicer.Span(source, a, b, name)
 
